@@ -196,7 +196,14 @@ def run(chk, facts):
     ok = len(ws_calls) >= 3 and okc == len(ws_calls)
     chk.ob("R-C13-6", "with_source-args", ok, f"{len(ws_calls)} with_source calls each attach the (src, path) of the element being processed" if ok else
            f"{len(ws_calls) - okc} with_source call(s) attach something else than the current element's (src, path): errors are reported against the wrong file", loc2)
-    sp_ok = "strip_prefix(source_dir)" in src(m2["body"]).replace(" ", "")
+    # (in the function itself, in a closure of it, or in a private helper it calls with the source directory)
+    texts = [src(m2["body"], -20).replace(" ", "")]
+    for n_ in walk(m2["body"]):
+        if n_.get("k") == "call" and n_["f"].get("k") == "path" and "::" not in n_["f"]["p"] and any("source_dir" in src(a_) for a_ in n_["args"]):
+            for h_ in syn.find_fn(n_["f"]["p"]):
+                if h_["mod"] == m2["mod"] and h_.get("body"):
+                    texts.append(src(h_["body"], -20).replace(" ", ""))
+    sp_ok = any("strip_prefix(source_dir)" in t_ for t_ in texts)
     chk.ob("R-C13-6", "relative-paths", sp_ok, "error paths are made relative to the source directory" if sp_ok else "error paths are no longer made relative to the source directory", loc2)
     chk.notes.append("C13: dominance and who-may-write on MIR; order-preservation and stage barriers on the syntax of lib.rs.")
 
